@@ -40,6 +40,7 @@ class ProducerScenario:
         self.flush_returned = None
         self.stop_returned = None
         self.wrap_seen = False
+        self.batch_futs = {}  # first value -> values of the batch (send_batch scenarios)
 
     def fail(self, oracle, sig, msg):
         self.violations.append((oracle, sig, msg))
@@ -62,6 +63,8 @@ class ProducerScenario:
         cl.close_hooks.append(self.on_close)
         if p.get("leader_move"):
             world.extra_alts.append(self.state_fault_alts)
+        self.kgates = {}  # name -> future: flush()/stop() placed by the explorer (budget k), never taken by default
+        world.extra_alts.append(self.kgate_alts)
         world.main_task = world.spawn("p", self.main)
 
     def state_fault_alts(self, world, quiescent):
@@ -77,6 +80,17 @@ class ProducerScenario:
             world.log("leader-move t-0 ->", part.leader)
 
         return [Alt("leader-move:t-0", "f", move)]
+
+    def kgate_alts(self, world, quiescent):
+        if world.chooser.remaining("k") <= 0:
+            return []
+        return [Alt(f"call:{name}", "k", lambda fut=fut: (not fut.done()) and fut.set_result(None))
+                for name, fut in self.kgates.items() if not fut.done()]
+
+    async def kgate(self, name):
+        fut = self.world.loop.create_future()
+        self.kgates[name] = fut
+        await fut
 
     async def main(self):
         from aiokafka import AIOKafkaProducer
@@ -115,9 +129,15 @@ class ProducerScenario:
             extra.append(world.spawn("p", self.flusher))
         if p.get("stop_gate"):
             extra.append(world.spawn("p", self.stopper))
-        await asyncio.wait(tasks)
+        await asyncio.wait(tasks, timeout=H)
+        self.hung_sends = 0
         for t in tasks:
-            if t.exception() is not None:
+            if not t.done():
+                # a send() call that never returns (e.g. issued while stop() is closing the client and left waiting for
+                # metadata) returned no future: outside C01/C02; counted, the task is abandoned
+                self.hung_sends += 1
+                t.cancel()
+            elif not t.cancelled() and t.exception() is not None:
                 self.send_errors.append(("task", repr(t.exception())))
         futs = [f for f in self.futs.values()]
         if futs:
@@ -136,8 +156,37 @@ class ProducerScenario:
         if st is not None and st.done() and not st.cancelled():
             self.sender_exc = st.exception()
 
+    async def batch_sender(self, i, prog):
+        # send_batch() with a pre-built BatchBuilder: one future for the whole batch
+        world = self.world
+        await world.gate(f"s{i}.0")
+        builder = self.prod.create_batch()
+        part = prog[0][0]
+        vals = []
+        for j, (_, ts) in enumerate(prog):
+            value = b"v%d.%d" % (i, j)
+            md = builder.append(key=None, value=value, timestamp=ts)
+            if md is None:
+                break
+            vals.append((j, value, ts))
+        try:
+            fut = await self.prod.send_batch(builder, "t", partition=part)
+        except Exception as e:  # noqa: BLE001
+            self.send_errors.append((vals[0][1], type(e).__name__))
+            world.record("send-refused", vals[0][1], type(e).__name__)
+            return
+        for j, value, ts in vals:
+            self.accepted.append((i, j, part, value, None, (), ts, world.now()))
+        first = vals[0][1]
+        self.batch_futs[first] = [v for _, v, _ in vals]
+        world.record("accepted-batch", first, part, len(vals))
+        self.futs[first] = fut
+        fut.add_done_callback(lambda f, value=first: self.on_resolved(value, f))
+
     async def sender(self, i, prog):
         world = self.world
+        if self.p.get("send_batch"):
+            return await self.batch_sender(i, prog)
         for j, (part, ts) in enumerate(prog):
             await world.gate(f"s{i}.{j}")
             value = b"v%d.%d" % (i, j)
@@ -162,10 +211,12 @@ class ProducerScenario:
         else:
             r = ("ok", f.result())
         self.resolved.setdefault(value, []).append((self.world.now(), r))
-        self.world.record("resolved", value, r[0], str(r[1]) if len(r) > 1 else "")
+        # default timestamps come from the C-level wall clock of the Cython builder: keep them out of the trace
+        brief = r[1] if r[0] == "exc" else (None if len(r) < 2 or r[1] is None else f"{r[1].partition}@{r[1].offset}")
+        self.world.record("resolved", value, r[0], brief)
 
     async def flusher(self):
-        await self.world.gate("flush")
+        await self.kgate("flush")
         before = set(self.futs)
         await self.prod.flush()
         pending = [v for v in before if not self.futs[v].done()]
@@ -175,7 +226,7 @@ class ProducerScenario:
                       f"flush() returned while {pending} accepted before it were unresolved")
 
     async def stopper(self):
-        await self.world.gate("stop")
+        await self.kgate("stop")
         before = set(self.futs)
         await self.prod.stop()
         pending = [v for v in before if not self.futs[v].done()]
@@ -195,7 +246,7 @@ class ProducerScenario:
             for pd in td["partition_data"]:
                 tp = (td["name"], pd["index"])
                 out = self.outstanding.setdefault(tp, [])
-                if out:
+                if out and self.p.get("check_c01", True):
                     self.fail("two-in-flight", {"what": "two-in-flight"},
                               f"ProduceRequest for {tp} written on {conn.label} (corr {corr}) while {[(c.label, k) for c, k in out]} still in flight")
                 if acks != 0:
@@ -220,10 +271,11 @@ class ProducerScenario:
             exc = world.main_task.exception()
             self.fail("harness-main", {"what": "main-exception", "type": type(exc).__name__}, f"scenario main failed: {exc!r}")
             return
-        self.check_sequences()
-        if self.wrap_seen:
-            return  # everything after an out-of-range sequence is a consequence of it
-        self.check_log()
+        if p.get("check_c01", True):
+            self.check_sequences()
+            if self.wrap_seen:
+                return  # everything after an out-of-range sequence is a consequence of it
+            self.check_log()
         if p.get("check_c02", True):
             self.check_futures()
 
@@ -327,6 +379,8 @@ class ProducerScenario:
         acks0 = not idem and p.get("acks", 1) == 0
         for a in self.accepted:
             v = a[3]
+            if p.get("send_batch") and v not in self.batch_futs:
+                continue  # send_batch() returns one future per batch, registered under its first record
             res = self.resolved.get(v, [])
             if len(res) > 1:
                 self.fail("future", {"what": "resolved-twice"}, f"future of {v!r} resolved {len(res)} times")
@@ -370,16 +424,30 @@ class ProducerScenario:
                 stored_ts = a[6]
             if md.timestamp_type != want_type:
                 self.fail("metadata", {"what": "timestamp-type"}, f"{v!r}: timestamp_type {md.timestamp_type}, topic applies {want_type}")
+            elif p.get("send_batch") and want_type == 0:
+                pass  # the batch future of send_batch() is not tied to one record's CreateTime timestamp
             elif a[6] is not None or want_type == 1:
                 if md.timestamp != stored_ts:
                     self.fail("metadata", {"what": "timestamp", "ts_type": want_type},
                               f"{v!r}: metadata timestamp {md.timestamp}, stored record has {stored_ts}")
-            elif md.timestamp != rec.timestamp and not legacy_resp:
-                self.fail("metadata", {"what": "timestamp-default", "ts_type": want_type},
-                          f"{v!r}: metadata timestamp {md.timestamp}, stored record has {rec.timestamp}")
+            elif md.timestamp is None or md.timestamp < 0:
+                # default timestamps are stamped by the Cython builder from the C wall clock, which the harness does
+                # not own: only "a timestamp was reported" is demanded here (DESIGN E1 table)
+                self.fail("metadata", {"what": "timestamp-default-missing", "ts_type": want_type},
+                          f"{v!r}: metadata timestamp {md.timestamp} for a record sent with the default timestamp")
         if self.sender_exc is not None and not self.wrap_seen:
-            self.fail("sender-crash", {"what": "sender-crash", "type": type(self.sender_exc).__name__},
-                      f"sender task died: {self.sender_exc!r}")
+            # a second set_result()/set_exception() on a send future raises InvalidStateError inside the sender: that is the
+            # "resolved twice" the property forbids. Any other sender death still resolves every future (checked above)
+            # and is not, by itself, a statement of C02.
+            chain, e = [], self.sender_exc
+            while e is not None and len(chain) < 8:
+                chain.append(e)
+                e = e.__cause__ or e.__context__
+            if any(isinstance(e, asyncio.InvalidStateError) for e in chain):
+                self.fail("sender-crash", {"what": "sender-crash-double-resolution"},
+                          f"sender task died resolving a future twice: {[repr(e) for e in chain]}")
+            else:
+                self.sender_deaths = [repr(e) for e in chain]
         for ctx in self.world.loop.exc_log:
             msg = ctx.get("message", "")
             exc = ctx.get("exception")
